@@ -413,3 +413,61 @@ def counted(loop):
     else:
         return None
     return {"var": var, "dir": d, "first": first, "last": last}
+
+
+# ---------------------------------------------------------------------------
+# rotation search without a counter
+# ---------------------------------------------------------------------------
+def judge_rotation_searches(db, funcs, rep, rule="R-LOOP-ROTATE"):
+    """`while (!fits (x)) x = rotate (x, k);` searches the rotations of x for one that satisfies the exit condition.  A rotation
+    permutes the bits: the sequence of values is periodic and never leaves its orbit, so the loop ends only if SOME rotation of
+    the start value satisfies the condition - for the others it spins for ever.  Whether that is so depends on the value (a
+    program's constant or offset); the loop is bounded for every input only if it also counts its steps, i.e. its condition (or an
+    exit in its body) depends on a variable that the body moves monotonically (`shift++`, `shift += 2` with `shift < 16`)."""
+    n = 0
+    for f in funcs:
+        if f.body is None:
+            continue
+        for lp in f.walk():
+            if lp.k not in LOOPS:
+                continue
+            init, cond, inc, body = loop_parts(lp)
+            if cond is None or body is None:
+                continue
+            rot = set()
+            other_writes = set()
+            for part in (inc, body):
+                if part is None:
+                    continue
+                for a in part.walk():
+                    if a.k == "BinaryOperator" and a.op == "=":
+                        l = _root(a.c[0])
+                        r = strip_casts(a.c[1])
+                        while r is not None and r.k == "ParenExpr":
+                            r = strip_casts(r.c[0])
+                        if l and r is not None and r.k == "BinaryOperator" and r.op == "|":
+                            ops = [strip_casts(x) for x in r.c]
+                            ops = [strip_casts(o.c[0]) if o is not None and o.k == "ParenExpr" else o for o in ops]
+                            if all(o is not None and o.k == "BinaryOperator" and o.op in ("<<", ">>") and _root(o.c[0]) == l for o in ops) and \
+                                    {o.op for o in ops} == {"<<", ">>"}:
+                                rot.add(l)
+                                continue
+                        if l:
+                            other_writes.add(l)
+                    elif a.k in ("CompoundAssignOperator",) or (a.k == "UnaryOperator" and a.op in ("++", "--")):
+                        l = _root(a.c[0])
+                        if l:
+                            other_writes.add(l)
+            rot -= other_writes
+            croots = {y.name for y in cond.walk() if y.k == "DeclRefExpr"}
+            searched = rot & croots
+            if not searched:
+                continue
+            n += 1
+            rep.saw(f)
+            counted = bool((croots - searched) & other_writes) or has_exit(body, lp)
+            rep.check(counted, rule, where(f), "%s:%s" % (f.name, unparse(cond)[:40]), "a search over the rotations of a value counts its steps",
+                      "%s rotates `%s` until `%s` fails and nothing else bounds the loop: a rotation never leaves the orbit of the start value, so for a "
+                      "value none of whose rotations satisfies the exit (an immediate that is not encodable) the compile never returns" %
+                      (f.name, sorted(searched)[0], unparse(cond)[:60]), line=lp.line)
+    return n
